@@ -24,11 +24,19 @@
     * `tagApplicationTable` / `propApplicationTable` — `add_tag_rule("x", on_test=a, on_suite=b)` / `add_property_rule(…)` for
       (a, b) ∈ {None, True, False}², observed through the public interface (refused with an AssertionError, or: is a test / a
       suite carrying `x` accepted afterwards) equals `Policy.ruleApplication` (`Model/PolicySeq.lean`, used by `configure`).
+    * `designationTable` — the real `load_project(arg)` under `$LCC_PROJECT` / `$LCC_PROJECT_FILE`, each of the three not given /
+      empty / a path (27 rows, `_load_project_from_path` replaced by a recorder): the path it goes for, or the search of the
+      working directory, equals `ProjectFiles.Desig.choose`;
+    * `resolutionTable` — the real `_load_project_from_path` on a missing path / a directory with or without `project.py` and
+      `suites` / a project file: the directory of the project it returns (or ProjectLoadingError) equals `ProjectFiles.fromPath`;
+    * `searchTable` — the real `load_project()` in a working directory C below P, each with or without `project.py` / `suites`
+      (16 rows): the directory of the project found (or ProjectNotFound) equals `ProjectFiles.search`.
   `Generated/C14Tables.lean` is written by harness/props/c14.py (`tables`).
 -/
 import LccModel.Model.Inject
 import LccModel.Model.Callable
 import LccModel.Model.PolicySeq
+import LccModel.Model.ProjectFiles
 import LccModel.Generated.C14Tables
 
 namespace LccModel.Generated.C14
@@ -78,5 +86,38 @@ theorem prop_application_table_agrees : ∀ r ∈ propApplicationTable, LccModel
 theorem application_tables_complete (a b : Option Bool) :
     (a, b) ∈ tagApplicationTable.map (·.1) ∧ (a, b) ∈ propApplicationTable.map (·.1) := by
   rcases a with _ | a <;> rcases b with _ | b <;> (try cases a) <;> (try cases b) <;> decide
+
+/-! ## which project is designated (fifth seeded round) -/
+
+open LccModel.ProjectFiles in
+theorem designation_table_agrees : ∀ r ∈ designationTable, (Desig.mk r.1.1 r.1.2.1 r.1.2.2).choose = r.2 := by decide
+
+open LccModel.ProjectFiles in
+/-- a directory holding `project.py` iff `py`, `suites` iff `sd` -/
+def probeDir (py sd : Bool) : ProjDir := ⟨if py then some LccModel.Policy.empty else none, sd, [], []⟩
+
+open LccModel.ProjectFiles in
+/-- `kind` 0: the path does not exist, 1: it is that directory, 2: it is the `project.py` of that directory (`R`) -/
+def resolveModel (kind : Nat) (py sd : Bool) : Option String :=
+  let fs : FS := match kind with
+    | 0 => []
+    | 1 => [("P", .dir (probeDir py sd))]
+    | _ => [("P", .projectFile "R" (probeDir py sd))]
+  (fromPath fs "P").toOption.map (·.1)
+
+theorem resolution_table_agrees : ∀ r ∈ resolutionTable, resolveModel r.1.1 r.1.2.1 r.1.2.2 = r.2 := by decide
+
+open LccModel.ProjectFiles in
+def searchModel (cpy csd ppy psd : Bool) : Option String :=
+  (search [("C", .dir (probeDir cpy csd)), ("P", .dir (probeDir ppy psd))] ["C", "P"]).toOption.map (·.1)
+
+theorem search_table_agrees : ∀ r ∈ searchTable, searchModel r.1.1 r.1.2.1 r.1.2.2.1 r.1.2.2.2 = r.2 := by decide
+
+/-- the designation table covers the whole domain {not given, empty, a path}³ -/
+theorem designation_table_complete : (designationTable.map (fun r => (r.1.1.isSome, r.1.1 == some "", r.1.2.1.isSome, r.1.2.1 == some "",
+    r.1.2.2.isSome, r.1.2.2 == some ""))).eraseDups.length = 27 := by decide
+
+theorem search_table_complete (a b c d : Bool) : (a, b, c, d) ∈ searchTable.map (·.1) := by
+  cases a <;> cases b <;> cases c <;> cases d <;> decide
 
 end LccModel.Generated.C14
